@@ -9,7 +9,8 @@ use warp_core::{
     make_head_id, make_strand_id, ActorId, AdmissionScopeId, AuthorityBinding, AuthorityDomainId,
     AuthorityDomainRef, CausalAuthority, CausalPosture, ForkStrandRequest, InboxPolicy, OriginId,
     PlaybackMode, PostureDerivation, ProvenanceEntry, ProvenanceService, ProvenanceStore,
-    RetentionContractId, RetentionPosture, SchedulerKind, SealStrength, WorldlineId,
+    RetentionContractId, RetentionPosture, SchedulerKind, SealStrength, SettlementService,
+    StrandBasisReport, WorldlineId,
     WorldlineState, WorldlineTick, WriterHead, WriterHeadKey,
 };
 
@@ -24,6 +25,8 @@ pub enum Op {
     Fork,
     /// Ingest for the forked child worldline (scripted only).
     IngestChild { prog: u8 },
+    /// Settle the strand into its parent (scripted only): appends recorded (non-local) events.
+    Settle,
 }
 
 impl Op {
@@ -33,6 +36,7 @@ impl Op {
             Op::Tick => "t".to_owned(),
             Op::Fork => "f".to_owned(),
             Op::IngestChild { prog } => format!("c{prog}"),
+            Op::Settle => "s".to_owned(),
         }
     }
     pub fn parse(s: &str) -> Option<Op> {
@@ -40,6 +44,7 @@ impl Op {
         match b.first()? {
             b't' => Some(Op::Tick),
             b'f' => Some(Op::Fork),
+            b's' => Some(Op::Settle),
             b'c' if b.len() == 2 => Some(Op::IngestChild { prog: b[1] - b'0' }),
             b'i' if b.len() == 4 => Some(Op::Ingest {
                 w: b[1] - b'0',
@@ -167,6 +172,9 @@ pub fn step(rt: &Rt, op: &Op, heads_per: u8) -> Option<Rt> {
                 .ingest(fixture::intent_default(wl(CHILD), &program(prog)))
                 .ok()?;
         }
+        Op::Settle => {
+            SettlementService::settle(&mut n.runtime, &mut n.provenance, make_strand_id("s1")).ok()?;
+        }
     }
     Some(n)
 }
@@ -186,6 +194,8 @@ pub struct History {
     pub live: BTreeMap<WorldlineId, WorldlineState>,
     /// The original provenance service.
     pub prov: ProvenanceService,
+    /// Basis report of the forked strand (forked history only).
+    pub basis_report: Option<StrandBasisReport>,
 }
 
 impl History {
@@ -246,6 +256,7 @@ pub fn extract(rt: &Rt, cfg: (u8, u8), label: String) -> Option<History> {
             e.worldline_tick.as_u64(),
         )
     });
+    let worldlines_has_child = worldlines.contains(&wl(CHILD));
     let mut live = BTreeMap::new();
     for (id, f) in rt.runtime.worldlines().iter() {
         live.insert(*id, f.state().clone());
@@ -258,6 +269,13 @@ pub fn extract(rt: &Rt, cfg: (u8, u8), label: String) -> Option<History> {
         entries,
         live,
         prov: rt.provenance.clone(),
+        basis_report: if worldlines_has_child {
+            SettlementService::plan(&rt.runtime, &rt.provenance, make_strand_id("s1"))
+                .ok()
+                .map(|p| p.basis_report)
+        } else {
+            None
+        },
     })
 }
 
@@ -331,6 +349,36 @@ pub fn scripted() -> Vec<((u8, u8), Vec<Op>)> {
                 IngestChild { prog: 3 },
                 i(1, 0, 5),
                 Tick,
+            ],
+        ),
+        // settlement import: the child's suffix is imported into the (unmoved) parent as recorded
+        // MergeImport events
+        (
+            (1, 1),
+            vec![
+                i(1, 0, 0),
+                Tick,
+                Fork,
+                IngestChild { prog: 2 },
+                Tick,
+                IngestChild { prog: 3 },
+                Tick,
+                Settle,
+            ],
+        ),
+        // settlement after the parent moved into the strand's footprint (conflict artifacts)
+        (
+            (1, 1),
+            vec![
+                i(1, 0, 0),
+                Tick,
+                Fork,
+                IngestChild { prog: 1 },
+                i(1, 0, 5),
+                Tick,
+                IngestChild { prog: 5 },
+                Tick,
+                Settle,
             ],
         ),
     ]
